@@ -11,6 +11,13 @@ PROP = {'drive': ['Subset'], 'modules': ['SfntV.Props.C10'],
                        'C10_layout_gpos',
                        'C10_layout_gsub_indices',
                        'C10_closure_rules_partial',
+                       'C10_closure_total',
+                       'C10_any_order',
+                       'C10_layout_gsub',
+                       'C10_writable_glyphs',
+                       'C10_writable_coverage',
+                       'C10_writable_encoding',
+                       'C10_writable_encoding_witness',
                        'C10_closure_rules_full_false',
                        'C10_nonvacuous'],
  'areas': [('subset', 400, 6000)],
@@ -20,24 +27,22 @@ PROP = {'drive': ['Subset'], 'modules': ['SfntV.Props.C10'],
  'partial': ['C10_closure_rules_full (every GSUB rule whose inputs are all in the FINAL subset has its outputs in '
              'the subset) is false for the code: glyphs that enter only as composite components, after '
              'SubsetGsub has run, can complete a rule (Lean witness C10_closure_rules_full_false; known finding '
-             'C10-gsub-over-components). Proved instead: C10_closure_rules_partial (closure of the glyph list '
-             'reached at the end of SubsetGsub step 2, for every rule order).',
-             'meaning of the rebuilt GSUB subtables (rule list of each lookup = original rule list restricted to '
-             'retained rules, renumbered) is '
-             'modelled and checked by correspondence (V subset.run) and by the direct predicate on the Go output '
-             '(D subset.check clause gsub) but is not yet a Lean theorem; proved: feature lists and '
-             'lookup indices unchanged (C10_layout_gsub_indices), CIDs and built-in encoding (C10_cff_cid_encoding), private dicts and font matrices (C10_cff_private)',
-             'C10_any_order: every theorem is stated for an arbitrary order (rule permutation, pop sequence), but '
-             'that two orders give the same glyph SET, and that a legal pop sequence always exists / the step-2 '
-             'fuel suffices (termination), are not proved; the model answers err:order for an illegal oracle',
-             'C10_writable: not a theorem (no model of the whole writer here; see C01). V stream subset.writable '
-             'compares Write+Read of the real subset with the prediction "ok unless the CFF encoding is '
-             'non-contiguous" (known finding C10-cff-encoding-order, DESIGN #38)',
-             'cmap subtables of the Macintosh platform (PlatformID 1) are outside the generated domain: Subset '
-             're-encodes the decoded (Unicode) codes under the Mac key, so codes >= 128 are translated twice '
-             '(finding reported, Go demonstration in the report)'],
- 'modelled_not_verified': ['cff.Outlines.Subset (cff/subset.go) has the same body as subsetter.SubsetCFF; only '
-                           'the latter (the one Font.Subset calls) is driven by the harness',
+             'C10-gsub-over-components). Proved instead: C10_closure_rules_partial (the text glyphs = glyph list '
+             'when SubsetGsub returns are closed under every rule, for every rule order) and C10_layout_gsub '
+             '(rules are kept/dropped relative to the text glyphs).',
+             'C10_writable is proved only as writer PRECONDITIONS on the model (C10_writable_glyphs, '
+             'C10_writable_coverage: coverage indices handed out by sortedByNewGid increase strictly with the new '
+             'glyph id; C10_writable_encoding: CFF encoding contiguous when retained encoded glyphs come first; '
+             'cmap keys unchanged by C10_cmap); the writer itself is not modelled here (see C01). Tie: V stream '
+             'subset.writable (Write+Read of the real subset vs. "ok unless encoding non-contiguous") and the V '
+             'stream subset.run, whose Go side lists rebuilt GSUB entries in coverage-index order while the model '
+             'lists them by glyph id. Outside the hypothesis of C10_writable_encoding the code fails: known finding '
+             'C10-cff-encoding-order (DESIGN #38), Lean witness C10_writable_encoding_witness',
+             'C10_closure_total shows that a legal pop sequence exists and the step-2 budget suffices (the model '
+             'never answers err:order for a suitable oracle); that the outcome is .ok rather than .panic exactly '
+             'when all reachable glyph ids are in range is checked by correspondence (malformed stream), not proved'],
+ 'modelled_not_verified': ['cff.Outlines.Subset (cff/subset.go) is driven separately (V stream subset.cffrun) against the same '
+                           'SubsetCFF model with cmap and layout tables removed',
                            'coverage-index assignment of the rebuilt GSUB subtables (index = rank of the new glyph '
                            'id, repaired) is abstracted: the model keeps from->to / first->ligatures association '
                            'lists; validity of the tables is exercised by subset.writable',
@@ -46,7 +51,8 @@ PROP = {'drive': ['Subset'], 'modules': ['SfntV.Props.C10'],
  'assumptions': ['Dom: glyph list duplicate-free (theorems need only that; "starts with 0" is not used), all glyph '
                  'ids and component ids < number of glyphs (otherwise the code panics; the model says panic and '
                  'the harness checks it), Widths/Names/FDSelect/GIDToCID cover all glyphs, FDSelect < number of '
-                 'private dicts, only GSUB 1.1/4.1 and GPOS 2.1 subtables, no GDEF, no Mac-platform cmap subtable',
+                 'private dicts, only GSUB 1.1/4.1 and GPOS 2.1 subtables, no GDEF; cmap subtables in the decoded (Unicode) view '
+                 'cmap.Table.Get gives, Macintosh-platform subtables included (after repair patches/C10/01)',
                  'o.rules is a permutation of the rule list (Go ranges over coverage maps); o.pops is the sequence '
                  'of keys pop(todo) returned']}
 
